@@ -216,10 +216,14 @@ pub fn table(extra: u64) {
                 ConnectOutcome::Failed(_) => continue,
                 ConnectOutcome::Up(mut conn) => {
                     let end = run::run_connection(&mut conn, &mut steps);
-                    if (matches!(end, ConnEnd::OutOfSteps) || ci + 1 == cfg.max_conns) && conn.is_connected() {
+                    if (matches!(end, ConnEnd::OutOfSteps) || (ci + 1 == cfg.max_conns && !matches!(end, ConnEnd::Drop | ConnEnd::Forget))) && conn.is_connected() {
                         with(|w| w.probe("table_case"));
                         let _ = invalid::forced_probe(&mut conn, ctx, &prop);
-                        let _ = do_wait(&mut conn, Wait::Drive, None);
+                        // a cancelled QoS 0 publish is documented as not cancel-safe: the
+                        // application gives the connection up
+                        if !with(|w| std::mem::replace(&mut w.qos0_cancelled, false)) {
+                            let _ = do_wait(&mut conn, Wait::Drive, None);
+                        }
                     }
                     with(|w| close_conn(w, "table: end"));
                     drop(conn);
